@@ -148,7 +148,12 @@ fn check_inner(g: &Graph, facts: &mut Facts) -> Result<u64, String> {
     let all: BTreeSet<usize> = (0..n).collect();
     let exp_nodes: Vec<String> = (0..n).map(|i| NAMES[i].to_string()).collect();
     facts.queries += 1;
-    if nodes != exp_nodes {
+    let sorted = |v: &[String]| -> Vec<String> {
+        let mut v = v.to_vec();
+        v.sort();
+        v
+    };
+    if sorted(&nodes) != sorted(&exp_nodes) {
         return Err(format!("{desc}: global view has nodes {nodes:?}, modules are {exp_nodes:?}"));
     }
     if es != refset(&all) || cnt != edges_ref.len() || !label_ok {
@@ -223,7 +228,7 @@ fn check_inner(g: &Graph, facts: &mut Facts) -> Result<u64, String> {
         t.filter_nodes(|node| keep.contains(&NAMES.iter().position(|x| *x == node.module().path().as_str()).unwrap()));
         let (fnodes, fes, fcnt, flabel) = collect(&t);
         let exp_nodes: Vec<String> = keep.iter().map(|&i| NAMES[i].to_string()).collect();
-        if fnodes != exp_nodes || fes != refset(&keep) || fcnt != refset(&keep).len() || !flabel {
+        if sorted(&fnodes) != sorted(&exp_nodes) || fes != refset(&keep) || fcnt != refset(&keep).len() || !flabel {
             return Err(format!("{desc}: filter_nodes keeping {exp_nodes:?} gives nodes {fnodes:?} and edges {fes:?}, expected edges {:?}", refset(&keep)));
         }
         // derived queries on the filtered view
